@@ -81,6 +81,11 @@ CHECKS = {
         text="Each observed build is decided against the IR it was rendered from; order independence follows from comparing every shuffle with the same expectation; 35 labelled invalid document classes check the exception discipline.",
         note="Two mechanisms are listed known findings (defaults coerced before extensions are merged; defaults nesting a literal of their own input type).",
         design="4/C11"),
+    "C12": dict(
+        technique="runtime monitor on Schema.to_string over random call histories: every output is parsed, rebuilt with build_schema and compared (canon) with the generating IR, re-printed, compared byte-wise with every other output of the same (schema, options) key in the process and with the same call made first in a fresh subprocess",
+        text="Round trip and purity are decided per observed call; histories interleave several schemas and option sets and repeat keys so that state leaking between calls becomes visible.",
+        note="Descriptions restricted to lines the printer does not re-wrap (statement); empty description = no description.",
+        design="4/C12"),
 }
 
 PENDING_REASON = "check not built yet in this session (planned: see DESIGN.md section 4); no claim is made"
